@@ -28,6 +28,7 @@ INVARIANTS
   PhaseInv
   NoPanic
   NoInternalError
+  IdsBounded
 PROPERTIES
   OthersUntouched
 CHECK_DEADLOCK FALSE
